@@ -21,6 +21,8 @@ SIZES = {'quick': dict(n=3200, cli=160, sub=4, field=0), 'thorough': dict(n=4800
 REQUIRED = {
     tier: {
         'classifications-completed': 100,
+        'datasets-with-10+-stretches': 3,
+        'datasets-starting-at-epoch-zero': 3,
         'stretch-begins-in-heavy-rain': 5,
         'stretch-begins-in-rise': 5,
         'stretch-ends-in-heavy-rain': 5,
